@@ -114,6 +114,13 @@ class History:
             elif kind == "query":
                 if planned_err.get("generic", "") and planned_err["generic"] not in ra["err"].get("display", "") and str(planned_err.get("custom", "")) not in ra["err"].get("display", ""):
                     self.violate("query-error-text", f"query step {step}: proxy error `{ra['err'].get('display','')[:100]}` does not carry the handler's error")
+                elif rb["err"].get("ty") == "querier" and ra["err"].get("display") != "Generic error: Querier contract error: " + rb["err"].get("display", ""):
+                    # same result as the raw smart query: the contract's error text as the chain's querier reports it, which
+                    # cosmwasm_std's QuerierWrapper turns into generic_err("Querier contract error: <text>")
+                    self.violate("query-error-differs", f"query step {step}: proxy fails with `{ra['err'].get('display','')[:120]}` but the raw smart query with "
+                                 f"`{rb['err'].get('display','')[:120]}` (expected `Generic error: Querier contract error: ` + that text)")
+                else:
+                    self.ctx.count("query_error_texts_equal")
             elif strip_display(ra["err"]) != planned_err:
                 self.violate(f"handler-error-value:{kind}", f"{kind} step {step}: proxy returned {json.dumps(strip_display(ra['err']))[:140]} but the handler returned {json.dumps(planned_err)[:140]}")
             self.ctx.count(f"{kind}_handler_err")
